@@ -310,13 +310,41 @@ func (ex *Exec) registerSpecFact(st *State, n *node, e *env, neg bool) {
 	}
 }
 
-// proveSpec records the obligations for goal n; string equalities between parts of registered
-// decompositions become position lemmas.
+// proveSpec records the obligations for goal n, splitting it structurally: conjunctions into separate
+// obligations, implications by assuming the antecedent, universal quantifiers by Skolemisation, predicate
+// applications by expansion. String equalities between parts of registered decompositions become position lemmas.
 func (ex *Exec) proveSpec(st *State, n *node, e *env, name, kind, src string) {
-	if n.op == "binary" && n.name == "&&" {
+	switch {
+	case n.op == "binary" && n.name == "&&":
 		ex.proveSpec(st, n.args[0], e, name+".1", kind, src)
 		ex.proveSpec(st, n.args[1], e, name+".2", kind, src)
 		return
+	case n.op == "binary" && n.name == "==>":
+		s2 := st.clone()
+		ex.assumeSpec(s2, n.args[0], e)
+		ex.proveSpec(s2, n.args[1], e, name, kind, src)
+		return
+	case n.op == "forall":
+		ne := &env{vars: map[string]Val{}, parent: e}
+		for _, qv := range n.vars {
+			sort := map[string]string{"int": "Int", "string": "String", "bool": "Bool", "ref": "Int"}[qv.typ]
+			if sort == "" {
+				specFail("unknown quantifier type %s", qv.typ)
+			}
+			c := ex.fresh("sk_"+qv.name, sort)
+			ne.vars[qv.name] = Val{K: KTerm, T: c, Typ: sortType(sort)}
+		}
+		ex.proveSpec(st, n.args[0], ne, name, kind, src)
+		return
+	case n.op == "call" && n.args[0].op == "ident":
+		if p, ok := ex.w.preds[n.args[0].name]; ok && len(p.params) == len(n.args)-1 {
+			ne := &env{vars: map[string]Val{}}
+			for i, pn := range p.params {
+				ne.vars[pn] = ex.eval(st, n.args[i+1], e)
+			}
+			ex.proveSpec(st, p.body, ne, name+":"+n.args[0].name, kind, src)
+			return
+		}
 	}
 	if n.op == "binary" && n.name == "==" && len(st.facts) > 0 {
 		l, r := ex.eval(st, n.args[0], e), ex.eval(st, n.args[1], e)
@@ -336,24 +364,7 @@ func (ex *Exec) proveSpec(st *State, n *node, e *env, name, kind, src string) {
 	ex.record(st, name, kind, ex.evalBool(st, n, e), src)
 }
 
-// proveEnsures handles one ensures clause at exit: Skolemises a top-level forall/==>.
+// proveEnsures handles one ensures clause at exit.
 func (ex *Exec) proveEnsures(st *State, en clause, e *env) {
-	name := ex.rootName + "/ensures:" + en.label
-	n := en.expr
-	if n.op == "forall" && n.args[0].op == "binary" && n.args[0].name == "==>" {
-		s2 := st.clone()
-		ne := &env{vars: map[string]Val{}, parent: e}
-		for _, qv := range n.vars {
-			sort := map[string]string{"int": "Int", "string": "String", "bool": "Bool", "ref": "Int"}[qv.typ]
-			if sort == "" {
-				specFail("unknown quantifier type %s", qv.typ)
-			}
-			c := ex.fresh("sk_"+qv.name, sort)
-			ne.vars[qv.name] = Val{K: KTerm, T: c, Typ: sortType(sort)}
-		}
-		ex.assumeSpec(s2, n.args[0].args[0], ne)
-		ex.proveSpec(s2, n.args[0].args[1], ne, name, "ensures", en.src)
-		return
-	}
-	ex.record(st, name, "ensures", ex.evalBool(st, n, e), en.src)
+	ex.proveSpec(st, en.expr, e, ex.rootName+"/ensures:"+en.label, "ensures", en.src)
 }
